@@ -231,10 +231,16 @@ fn gen_level(
                 vec![]
             }
         } else {
-            vec![
+            let mut v = vec![
                 vec!["MATCH".into(), "*".into(), "WITH".into(), "PRODUCTS".into(), "FROM".into(), names[si - 1].clone()],
                 vec!["DISALLOW".into(), "*".into()],
-            ]
+            ];
+            // a rule with source and destination prefixes that selects nothing (it keeps the verdict as it
+            // is, and gives post-signing edits of prefixes something to work on)
+            if Rng::stream(r.next(), "idle-rule").chance(1, 3) {
+                v.insert(0, vec!["MATCH".into(), "no-such-file-*".into(), "IN".into(), "src".into(), "WITH".into(), "PRODUCTS".into(), "IN".into(), "out/dist".into(), "FROM".into(), names[si - 1].clone()]);
+            }
+            v
         };
         let exp_prod: Vec<Rule> = match r.below(3) {
             0 => vec![],
@@ -842,6 +848,34 @@ pub fn apply_fault(t: &mut SupplyTrace, plan: &Plan, f: F, r: &mut Rng, prefer_s
             if !cmds.is_empty() && r.chance(1, 8) {
                 let arr = r.pick(&cmds).clone();
                 t.root.doc.ops.push(DocOp::Insert { ptr: arr, index: r.idx(2), values: vec![json!("")] });
+                t.labels.push(fname(f).to_string());
+                return true;
+            }
+            // a MATCH rule with a source / destination prefix: the prefix spelled another way (a trailing
+            // slash, "./" in front, "/." behind) is another rule: it selects and strips differently
+            let prefixes: Vec<(String, String)> = ls
+                .iter()
+                .filter_map(|(p, val)| {
+                    let (arr, idx) = p.rsplit_once('/')?;
+                    let k: usize = idx.parse().ok()?;
+                    let rel = arr.strip_prefix("/signed").unwrap_or(arr);
+                    let a = v.pointer(rel)?.as_array()?;
+                    if k >= 1 && a.first()?.as_str()? == "MATCH" && a.get(k - 1)?.as_str()? == "IN" {
+                        Some((p.clone(), val.as_str()?.to_string()))
+                    } else {
+                        None
+                    }
+                })
+                .collect();
+            if !prefixes.is_empty() && r.chance(1, 6) {
+                let (ptr, old) = r.pick(&prefixes).clone();
+                let nv = match r.below(4) {
+                    0 if old.ends_with('/') && old.len() > 1 => old[..old.len() - 1].to_string(),
+                    0 | 1 => format!("{old}/"),
+                    2 => format!("./{old}"),
+                    _ => format!("{old}/."),
+                };
+                t.root.doc.ops.push(DocOp::Set { ptr, value: json!(nv) });
                 t.labels.push(fname(f).to_string());
                 return true;
             }
